@@ -22,6 +22,16 @@ CHECKS = {
     "C02": tv("DESIGN.md 4 C02", "Real add_required_resource / SelectWorkers / CumulativeWorker / initialize() executed symbolically; capacity is proved at a symbolic instant (free variable = all instants) for workers and cumulative workers, busy spans for static/delayed/dynamic assignments, selection counts for every kind and count, and the work-amount inequality with symbolic productivities; all for every admitted schedule and selection within the shape bounds."),
     "C03": tv("DESIGN.md 4 C03", "Every task-constraint class is declared through the real API with symbolic values/offsets/interval bounds on every mix of task kinds and optional flags (also as optional constraint, with a horizon, and with the solver object created before the constraint); each documented relation is proved for all admitted schedules under the scheduled/applied guards."),
     "C04": tv("DESIGN.md 4 C04", "Every resource-constraint class is declared through the real API on a plain worker, a worker reached through a selection and a cumulative worker, with symbolic interval bounds, workload bounds, distances, offsets and activity windows; periodic rules are proved for a symbolic period index; all for every admitted schedule and selection."),
+    "C05": tv("DESIGN.md 4 C05", "Completeness: for every task constraint, resource constraint (on a plain worker), selection, cumulative worker, buffer (incl. two buffers sharing tasks) and single task, the quantified query 'S_valid(p, x) and forall aux. not phi_real(p, x, aux)' is shown unsat for symbolic parameters p and schedule x: every schedule valid beyond dispute is admitted by the constraint system the real code generates, also when an optional task named by the constraint is left unscheduled. Counterexamples are replayed: the real solver must reject the pinned valid schedule.",
+              technique="symbolic execution of the real encoder + quantified SMT queries (forall-auxiliaries, qe2/MBQI, explicit array/function witnesses) against S_valid, counterexample replay"),
+    "C06": tv("DESIGN.md 4 C06", "Deletion equivalence: the problem with optional task T restricted to 'T unscheduled' and the same problem built without T (both by the real API in one symbolic run) admit the same schedules over all shared observables - two quantified halves per embedding context (resources, selections, cumulative, buffers, indicators/objectives, every two-task constraint, groups, counting, resource rules); scheduled optional tasks obey the C01 clauses; force/condition/dependency/count rules are sound and complete for every decision subset.",
+              technique="symbolic execution of the real encoder + quantified SMT equivalence queries between two real builds, counterexample replay on both problems"),
+    "C08": tv("DESIGN.md 4 C08", "For every indicator / objective-created indicator the real constructors are executed symbolically and phi_real => value == definition(schedule) is proved (within one unit for the utilisation ratio and the halved linear cost), over symbolic due dates, priorities, cost coefficients, bounds and all admitted schedules incl. unscheduled optional tasks and alternative assignments; indicator targets/bounds incl. value 0."),
+    "C09": tv("DESIGN.md 4 C09", "The buffer section of the real initialize() is executed with symbolic quantities/levels/bounds; level after every change instant == initial + signed quantities of accesses up to that instant, sortedness and coverage of change times, final level, bounds on every level, distinct instants for non-concurrent buffers, ties admitted for concurrent ones; 1-4 accesses, one or two buffers."),
+    "C10": tv("DESIGN.md 4 C10", "Every listed formula (depth <= 2, thorough 3) over the six connectives with raw Boolean atoms and built-in constraints as operands is declared through the real API; phi_real is proved equivalent to base rules AND connective(meanings): soundness plus the quantified completeness half, which also shows operands are not enforced on their own; optional formulas/constraints and force-apply-N counts likewise; user expressions verbatim.",
+              technique="symbolic execution of the real encoder + SMT equivalence (validity + quantified completeness) against the connective semantics, counterexample replay"),
+    "C14": tv("DESIGN.md 4 C14", "Twins of one parametric problem are built by the real API in one symbolic run: canonical vs renamed (adversarial name pools), vs every permutation of each declaration stage, vs the same problem built after other problems were built/solved; the two assertion sets are proved to admit the same schedules over role-matched observables (two quantified halves), and z3's global parameters are compared for the history twins.",
+              technique="symbolic execution of two real builds + quantified SMT equivalence between them, counterexample replay on both builds"),
 }
 
 NOT_APPLICABLE = {}
